@@ -47,12 +47,19 @@ static void op_ellswift_decode(void) {
     out_int(ret); out_pk(&pk); free(copy);
 }
 /* ell_a64 ell_b64 seckey32 #party #kind data|- */
+/* callbacks that forward to the EXPORTED hash functions (a binding's trampoline): same result as naming them directly */
+static int xdh_forward_bip324(unsigned char *output, const unsigned char *x32, const unsigned char *ell_a64, const unsigned char *ell_b64, void *data) {
+    return secp256k1_ellswift_xdh_hash_function_bip324(output, x32, ell_a64, ell_b64, data);
+}
+static int xdh_forward_prefix(unsigned char *output, const unsigned char *x32, const unsigned char *ell_a64, const unsigned char *ell_b64, void *data) {
+    return secp256k1_ellswift_xdh_hash_function_prefix(output, x32, ell_a64, ell_b64, data);
+}
 static void op_ellswift_xdh(void) {
     unsigned char out[32]; int ret; long long kind = I(4);
     unsigned char *data = is_none(5) ? NULL : (unsigned char *)B(5);
     secp256k1_ellswift_xdh_hash_function fp;
-    if (kind < 0 || kind > 4 || (kind == 1 && L(5) != 64) || (!is_none(5) && L(5) < 1)) { out_int(-98); return; }
-    fp = kind == 0 ? secp256k1_ellswift_xdh_hash_function_bip324 : kind == 1 ? secp256k1_ellswift_xdh_hash_function_prefix : kind == 4 ? NULL : xdh_test_cb;
+    if (kind < 0 || kind > 6 || ((kind == 1 || kind == 6) && L(5) != 64) || (!is_none(5) && L(5) < 1)) { out_int(-98); return; }
+    fp = kind == 0 ? secp256k1_ellswift_xdh_hash_function_bip324 : kind == 1 ? secp256k1_ellswift_xdh_hash_function_prefix : kind == 4 ? NULL : kind == 5 ? xdh_forward_bip324 : kind == 6 ? xdh_forward_prefix : xdh_test_cb;
     xdh_cb_ret = kind == 2; memset(out, 0x55, 32);
     ret = secp256k1_ellswift_xdh(CTX, out, BN(0, 64), BN(1, 64), BN(2, 32), (int)I(3), fp, data);
     out_int(ret);
